@@ -36,7 +36,20 @@ def S():
 
 
 def vec6(rng):
-    return gen.vec(rng, 6, 1e-6, 1e6) if rng.random() < 0.6 else gen.vec(rng, 6, 1e-2, 1e2)
+    v = gen.vec(rng, 6, 1e-6, 1e6) if rng.random() < 0.6 else gen.vec(rng, 6, 1e-2, 1e2)
+    r_ = rng.random()
+    if r_ < 0.15:
+        # structured values: a pure force / pure couple, a pure translation / pure rotation (one half exactly zero), one component
+        if r_ < 0.06:
+            v[:3] = 0
+        elif r_ < 0.12:
+            v[3:] = 0
+        else:
+            e_ = np.zeros(6)
+            k_ = rng.integers(6)
+            e_[k_] = v[k_]
+            v = e_
+    return v
 
 
 def mk(c, vs, form='float'):
@@ -46,8 +59,10 @@ def mk(c, vs, form='float'):
     vs = [np.asarray(v, dtype=np.float64) for v in vs]
     if form == 'int_array':
         vs = [v.astype(np.int64) for v in vs]
-    elif form in ('uint8', 'int8'):
+    elif form in ('uint8', 'int8', 'float16'):
         vs = [v.astype(form) for v in vs]
+    elif form == 'float16_list':      # a list of half-precision 6-vectors (the documented [V1, V2, ...] form)
+        return C([v.astype(np.float16) for v in vs])
     elif form == 'matrix':       # the documented 6 x N array form, for every N >= 1
         return C(np.column_stack(vs))
     elif form == 'int_list' and len(vs) == 1:
@@ -62,7 +77,10 @@ def rel(a, b, sc=None):
     if a.shape != b.shape or not np.all(np.isfinite(a)):
         return math.inf
     sc = sc if sc is not None else max(1e-300, float(np.max(np.abs(b))))
-    return float(np.max(np.abs(a - b))) / sc if a.size else 0.0
+    if not a.size:
+        return 0.0
+    d = float(np.max(np.abs(a - b)))
+    return d / sc if sc > 0 else (0.0 if d == 0 else math.inf)     # (a zero operand: the result is exactly zero)
 
 
 def _where(e):
@@ -334,6 +352,10 @@ def run(ctx):
             lo_, hi_ = (0, 256) if ft == 'uint8' else (-127, 128)
             drive(RUNNERS, ctx, 'arith', dict(cls=c, op=['add', 'sub', 'neg'][rng.integers(3)], form=ft, A=[[int(t) for t in rng.integers(lo_, hi_, size=6)] for _ in range(m)],
                                               B=[[int(t) for t in rng.integers(lo_, hi_, size=6)] for _ in range(m)]))
+        if rng.random() < 0.1:       # whole multiples of 32 up to 64000 held in half precision (largest finite value 65504): the sum may not fit
+            ft = ['float16', 'float16_list'][rng.integers(2)]
+            drive(RUNNERS, ctx, 'arith', dict(cls=c, op=['add', 'sub', 'neg'][rng.integers(3)], form=ft, A=[[float(32 * t) for t in rng.integers(-2000, 2001, size=6)] for _ in range(m)],
+                                              B=[[float(32 * t) for t in rng.integers(-2000, 2001, size=6)] for _ in range(m)]))
     gi = 0
     for c1, c2 in itertools.product(SV, SV):
         for op in ('add', 'sub'):
